@@ -425,6 +425,10 @@ class C13(Prop):
                              ns_gone=b["ns_gone"]) if keep == {k: v for k, v in b["ns_new"].items() if k in keep} else a
             internal = [t for t in fired if t[1] is not None and not by_design_local(t[0], t[2])]
             reported = any("Disabling pyflyby auto importer" in l for l in a["pf_log"])
+            # hunt 2 (C13-H3): an internal error that needs no injection: pyflyby cannot read a validly encoded script
+            if cells[i].get("ck") == "run_enc" and a["importer"]["state"] == "ENABLED" and not fired \
+                    and any(("While parsing" in l or "UnicodeDecodeError" in l) for l in a["pf_log"]):
+                F("pyflyby reported an internal error for a valid script and did not withdraw", i, pf_log=a["pf_log"][:3])
             relevant = [t for t in fired if not by_design_local(t[0], t[2])]
             # ---- no pyflyby exception reaches the shell
             if a["escaped"]:
@@ -662,7 +666,10 @@ class C13(Prop):
     @staticmethod
     def fam_run_parse(case, failure):
         """%run: an internal error while parsing the script for auto-import is logged, not treated as an internal error"""
-        if failure.get("ck") not in ("run", "run_plain", "run_odd", "run_odd_needs"):
+        if failure.get("ck") == "run_enc" and \
+                failure.get("what") == "pyflyby reported an internal error for a valid script and did not withdraw":
+            return True         # the same local try/except, reached without injection (UTF-8 BOM, PEP 263 cookie)
+        if failure.get("ck") not in ("run", "run_plain", "run_odd", "run_odd_needs", "run_enc"):
             return False
         if failure.get("what") != "after an internal error the importer did not withdraw":
             return False
@@ -720,7 +727,18 @@ class C13(Prop):
         return all(l.startswith(("global_matches_with_autoimport(", "attr_matches_with_autoimport(", "_get_pdb_if_is_in_pdb()"))
                    for l in failure.get("pf_log", []))
 
-    families = {"stale_debug_lines_after_set_level": fam_stale_debug.__func__,
+    @staticmethod
+    def fam_debug_kw(case, failure):
+        """C13-H4: the user's code constructs a debugger with keyword arguments while HookPdbCtx is in force"""
+        if failure.get("ck") != "debug_kw":
+            return False
+        w = failure.get("what", "")
+        if w == "a pyflyby exception was printed by the shell":
+            return "unexpected keyword argument" in str(failure.get("tail", ""))
+        return w == "the cell's outcome differs from the pyflyby-free run" and not (failure.get("trace") or failure.get("internal"))
+
+    families = {"debugger_ctor_rejects_keywords": fam_debug_kw.__func__,
+                "stale_debug_lines_after_set_level": fam_stale_debug.__func__,
                 "D23_debug_statement_hook_unprotected": fam_d23.__func__,
                 "withdrawal_inside_transformer_loop_skips_next": fam_midloop.__func__,
                 "unprintable_exception_logging_error": fam_logging.__func__,
